@@ -36,6 +36,8 @@ def _ansi_tokenize(ansi_text: str) -> Iterable[_AnsiToken]:
     for match in re_ansi.finditer(ansi_text):
         start, end = match.span(0)
         sgr, osc = match.groups()
+        if sgr == "":
+            sgr = "0"  # ESC[m is a reset
         if start > position:
             yield _AnsiToken(remove_csi(ansi_text[position:start]))
         yield _AnsiToken("", sgr, osc)
